@@ -493,6 +493,88 @@ __wrap_rmdir(const char *path)
 	return ret;
 }
 
+/* Calls the runtime does not issue today but a change to it plausibly would:
+ * they are steps (and crash/fault points) too, so that new code cannot escape
+ * the simulator unnoticed. */
+extern int __real_rename(const char *a, const char *b);
+extern int __real_unlink(const char *path);
+extern int __real_fsync(int fd);
+extern int __real_fdatasync(int fd);
+
+int
+__wrap_rename(const char *a, const char *b)
+{
+	if (sim_self() < 0)
+		return __real_rename(a, b);
+	struct fault *f;
+	long k = begin_step("rename", &f);
+	int ret, e = 0;
+	if (f && f->err) {
+		ret = -1;
+		e = f->err;
+	} else {
+		ret = __real_rename(a, b);
+		e = ret ? errno : 0;
+	}
+	end_step(k, "rename", b, 0, ret, e);
+	errno = e;
+	return ret;
+}
+
+int
+__wrap_unlink(const char *path)
+{
+	if (sim_self() < 0)
+		return __real_unlink(path);
+	struct fault *f;
+	long k = begin_step("unlink", &f);
+	int ret, e = 0;
+	if (f && f->err) {
+		ret = -1;
+		e = f->err;
+	} else {
+		ret = __real_unlink(path);
+		e = ret ? errno : 0;
+	}
+	end_step(k, "unlink", path, 0, ret, e);
+	errno = e;
+	return ret;
+}
+
+static int
+sync_step(const char *call, int fd, int (*real)(int))
+{
+	struct fault *f;
+	long k = begin_step(call, &f);
+	int ret, e = 0;
+	if (f && f->err) {
+		ret = -1;
+		e = f->err;
+	} else {
+		ret = real(fd);
+		e = ret ? errno : 0;
+	}
+	end_step(k, call, (fd >= 0 && fd < MAXFD && fdpath[fd]) ? fdpath[fd] : "?", fd, ret, e);
+	errno = e;
+	return ret;
+}
+
+int
+__wrap_fsync(int fd)
+{
+	if (sim_self() < 0)
+		return __real_fsync(fd);
+	return sync_step("fsync", fd, __real_fsync);
+}
+
+int
+__wrap_fdatasync(int fd)
+{
+	if (sim_self() < 0)
+		return __real_fdatasync(fd);
+	return sync_step("fdatasync", fd, __real_fdatasync);
+}
+
 /* ------------------------------------------------------------- stdio streams */
 struct cookie {
 	int fd;
